@@ -1,6 +1,6 @@
 """C17 — a dataset stays structurally consistent and announces every structural change.
 
-One family, `seq`: a history of calls of the Data mutation API with *positional* arguments
+Families `seq` / `seqx` (same driver entry): a history of calls of the Data mutation API with *positional* arguments
 ("the k-th current component", "pool ComponentID j", "the current shape / a wrong shape", ...) is
 run on a real `Data` (attached to a DataCollection's hub when the history says so, with a catch-all
 listener); after every call the harness reads components (id, label, class, shape, value tag),
@@ -376,7 +376,8 @@ PROBE = [1, 2, 3, 110, 121, 200]
 
 def alphabet(clean, level):
     """Calls offered at every position of the exhaustive part.
-    clean = the stratum that cannot reach a listed known-finding construct (references `m`/`n`/`f`);
+    clean = references `m`/`n`/`f` (never a coordinate component / an id in use where a new one is
+    expected); not clean = the abusive calls of F20-F22 (repaired: refused, or replaced and announced);
     level 0 = core, 1 = wider."""
     if clean:
         A = [
@@ -415,7 +416,8 @@ def alphabet(clean, level):
                 ["setLinked", [0]], ["setLinked", [0, 2]], ["setLinked", []],
             ]
         return A
-    # finding stratum: arguments that can hit the listed known-finding constructs
+    # abuse stratum: remove_component of coordinate ids (F20), add_component onto ids in use (F21),
+    # update_id onto ids in use (F22)
     return [
         ["addAt", ["c", 0], "same"], ["addAt", ["c", 1], "same"], ["addAt", ["o", 0], "same"], ["addAt", ["p", 0], "same"],
         ["addAt", ["c", 2], "bump"],
@@ -463,7 +465,7 @@ def rand_shape(rng, valid=0.85):
 
 
 def rand_op(rng, clean):
-    """One call; `clean` = only arguments that cannot reach a listed known-finding construct."""
+    """One call; `clean` = no coordinate id / id in use where F20-F22 were (see `alphabet`)."""
     k = rng.random()
     if k < 0.16:
         return ["add", rng.choice([1, 2, 3, 1, 2, 3, 110, 200]), rand_shape(rng) if rng.random() < 0.8 else rng.choice([[3], [2, 2], [2, 1, 2], [4]])]
@@ -521,7 +523,7 @@ def _tuple(x):
 
 
 class Seq(Family):
-    """Clean stratum: no call can reach a listed known-finding construct."""
+    """Clean stratum: no call removes a coordinate component or targets an id in use (F20-F22)."""
     name = "seq"
     exhaustive = False
     batch = 400
@@ -573,8 +575,8 @@ class Seq(Family):
                         if c:
                             yield c
         else:
-            # finding stratum: one abusive call after every prefix (+ one clean call before), then every
-            # core call after it (the model has to follow the code through the damage as well)
+            # abuse stratum: one abusive call after every prefix (+ one clean call before), then every
+            # core call after it (a refused call must leave the dataset fully usable)
             for pre in PREFIXES[1:]:
                 for x in X:
                     c = emit(pre + [x])
@@ -639,16 +641,12 @@ class Seq(Family):
 
 
 class SeqX(Seq):
-    """Finding stratum: arguments that reach the listed known-finding constructs (and anything else)."""
+    """Abuse stratum (regression corpus of F20-F22): remove_component of pixel / world ids, add_component
+    onto ids in use (arrays, derived, coordinate), update_id onto ids in use - anywhere in a history,
+    also inside a DataCollection."""
     name = "seqx"
     clean = False
     budget_share = 1.0
-    known_findings_uncounted = True
-
-    def adapt(self, rops):
-        # the finding stratum stays outside a DataCollection: after an abusive call the collection's link
-        # manager (not modelled, C03) makes removed coordinate ids reachable by name again
-        return ["register" if r == "attach" else r for r in rops]
 
 
 PROP = Property(
@@ -660,5 +658,5 @@ PROP = Property(
     families=[Seq(), SeqX()],
     trusted_base=["CPython dict insertion order / object identity, the Hub delivering messages in broadcast order to a catch-all listener (delay_callbacks only postpones), IdentityCoordinates axis names"],
     assumptions=["the positional-argument resolution rules are the same in lean/Drivers/C17.lean and harness/props/c17.py (any difference shows as a model disagreement)"],
-    rule="histories of Data mutation calls: every 1- and 2-call continuation of 6 set-up prefixes over a 66-call alphabet (3-call continuations over the 27-call core alphabet in thorough) + seeded random histories of 3..12 calls in clean / mixed / abusive strata; non-trivial = at least two calls that announced something or raised",
+    rule="histories of Data mutation calls: every 1- and 2-call continuation of 6 set-up prefixes over a 66-call alphabet (3-call continuations over the 27-call core alphabet in thorough) + seeded random histories of 3..12 calls in clean / mixed / abusive (coordinate ids removed, ids in use re-added or targeted by update_id: F20-F22) strata; non-trivial = at least two calls that announced something or raised",
 )
